@@ -3,6 +3,7 @@
 #include "icu_spec.h"
 #include "icu_contracts.h"
 #include "common.h"
+#include "spec_touch.h"
 int verif_outcome;
 int ghost_line_calls[3]; u32 ghost_line_bad; u32 ghost_vec_n; u32 ghost_vec_addr[16]; bool ghost_vec_ctx[16]; u32 ghost_irq;
 #ifdef VERIF_REAL
